@@ -375,6 +375,7 @@ pub struct StepW {
 	pub temp_coll: u32,
 	pub kill: u32,
 	pub park_key: u32,
+	pub probe_key_many: u32,
 	pub p_try: u8,
 	pub p_read: u8,
 	pub p_owned_key: u8,
@@ -409,6 +410,7 @@ impl Default for StepW {
 			temp_coll: 0,
 			kill: 0,
 			park_key: 0,
+			probe_key_many: 0,
 			p_try: 110,
 			p_read: 100,
 			p_owned_key: 100,
@@ -535,6 +537,7 @@ pub fn gen_seq(src: &mut Src<'_>, cfg: &SeqCfg) -> SeqCase {
 			sw.temp_coll,
 			if world.leaves.is_empty() { 0 } else { sw.kill },
 			if s.key { sw.park_key } else { 0 },
+			if s.key || s.guard || s.lost { sw.probe_key_many } else { 0 },
 		];
 		let Some(k) = src.weighted(&weights) else { continue };
 		let step = match k {
@@ -641,6 +644,19 @@ pub fn gen_seq(src: &mut Src<'_>, cfg: &SeqCfg) -> SeqCase {
 					_ => {}
 				}
 				Step::ParkKey { cont: src.pick(crate::interp::PARK_CONTS as usize) as u8, route }
+			}
+			16 => {
+				// around the widths a counter could have
+				let n = match src.pick(8) {
+					0 => 2,
+					1 => 127 + src.pick(4) as u32,
+					2 | 3 => 254 + src.pick(5) as u32,
+					4 => 300 + src.pick(300) as u32,
+					5 => 510 + src.pick(5) as u32,
+					6 => 1000 + src.pick(3000) as u32,
+					_ => 65_534 + src.pick(5) as u32,
+				};
+				Step::ProbeKeyMany { n }
 			}
 			_ => {
 				let kind = match src.pick(3) {
